@@ -209,7 +209,11 @@ class _MaskedArrayFunc(object):
 
         # transform back to numpy array
         if np.ma.isMaskedArray(result):
-            result = result.filled(np.nan)
+            if result.dtype.kind == 'b':
+                # all / any of nothing: the identity of the reduction (NaN would be cast to True)
+                result = result.filled(self.__name__ == 'all')
+            else:
+                result = result.filled(np.nan)
 
         return result
 
